@@ -196,12 +196,12 @@ func c16Jobs(thorough bool) []c16Job {
 		}
 	}
 	// C. pre-existing tables
-	for _, s := range c16Shapes {
+	for _, s := range c16PreShapes {
 		for _, pre := range []string{"P1", "P2"} {
 			jobs = append(jobs, c16Job{Kind: "preexist", Shapes: []string{s}, Tables: []int{0}, Route: "migrate", Pre: pre})
 		}
 	}
-	for _, tp := range tuples(2) {
+	for _, tp := range tuplesOver(2, c16PreShapes) {
 		for _, pre := range []string{"P1", "P2"} {
 			jobs = append(jobs, c16Job{Kind: "preexist", Shapes: tp, Tables: []int{0, 0}, Route: "migrate", Pre: pre})
 		}
@@ -243,7 +243,7 @@ func c16Jobs(thorough bool) []c16Job {
 	}
 	// F. reserved words
 	for _, w := range append(append([]string{}, c16Reserved...), c16TypeFuncReserved...) {
-		for _, where := range []string{"column", "table", "unique", "index"} {
+		for _, where := range []string{"column", "table", "unique", "index", "index-desc"} {
 			jobs = append(jobs, c16Job{Kind: "reserved", Shapes: []string{"LS"}, Tables: []int{0}, Route: "migrate", Word: w, Where: where})
 		}
 	}
@@ -310,6 +310,9 @@ func c16Build(j c16Job) (*c16Built, error) {
 				}
 				if j.Where == "index" {
 					d.Index = [][]string{{j.Word}}
+				}
+				if j.Where == "index-desc" {
+					d.Index = [][]string{{j.Word + " desc"}}
 				}
 			}
 		}
@@ -420,7 +423,7 @@ func c16Schema(j c16Job, b *c16Built, conf config.Root, route string) (pg *simpg
 		d := b.decls[0]
 		var defs []string
 		for _, c := range d.Columns() {
-			defs = append(defs, c[0]+" "+c[1])
+			defs = append(defs, `"`+c[0]+`" `+c[1])
 		}
 		if _, err := pool.Exec(ctx, fmt.Sprintf("create table %s(%s)", d.Table, strings.Join(defs, ", "))); err != nil {
 			return pg, nil, "pre-existing table: " + err.Error()
@@ -550,6 +553,16 @@ func c16Exec(j c16Job) (res c16Res) {
 	// reserved words: judged on the statement text
 	if j.Kind == "reserved" {
 		c16Quoting(j, pg.SQLLog(), &res)
+	}
+	// reserved words: category "reserved" as a column name / unique entry / plain index entry works on the
+	// CREATE and ALTER paths and is judged like everything else; table names, the category "reserved (can be
+	// function or type name)" and "<word> desc" index entries are left unquoted by wpg: observed only
+	judged := j.Kind != "reserved" || (c16WordClass(j.Word) == "reserved" && (j.Where == "column" || j.Where == "unique" || j.Where == "index"))
+	if merr != nil && !judged {
+		res.obs = append(res.obs, c16Vio{"reserved-unquoted", fmt.Sprintf("observed:reserved-word-unquoted:%s:%s-migration-fails", c16WordClass(j.Word), j.Where),
+			fmt.Sprintf("configuration with %s named %q is accepted and the migration fails: %v", j.Where, j.Word, merr)})
+		res.outcome = "accepted:observed-migrate-error"
+		return
 	}
 	if merr != nil {
 		if u := pg.Unsupported(); len(u) > 0 && j.Kind != "reserved" {
